@@ -61,6 +61,8 @@ def anchors(a: Anchors):
                "ycoords=pos_scaled.dot(ey)+(shape[1]-1)/2", "glob_rotator=axes_to_rotator(cross(ex,ey),ey)",
                "pool.add_task(yx,shape[1:],img,mol.rotator[ci],glob_rotator,i)", "tilt_series[sl]+=img_fragment"])
            and "rotator.inv()*glob_rotator" in norm(ast.unparse(find_def(a.load(SM)[1], "_simulate_projection_one"))))
+    a.state("simulator_stores_components_and_options_only", SM, {"TomogramSimulator": ["_components", "_corner_safe", "_order", "_scale"]},
+            "a TomogramSimulator stores its components and options only (nothing filtered or simulated is remembered between calls)")
     a.fact("sim_2d_projects_z", SM, "_simulate_2d_one", "np.sum(transformed[sl_src], axis=0); dst = sl_dst[1:]",
            lambda fn: all(t in norm(ast.unparse(fn)) for t in ["projected=np.sum(transformed[sl_src],axis=0)", "return(sl_dst[1:],projected)"]))
 
